@@ -545,3 +545,159 @@ Proof.
   change (item_ok (ITag 258 (IArray true (map bw_item ws)))) with ((258 <? two64) && item_ok (IArray true (map bw_item ws))).
   rewrite A. reflexivity.
 Qed.
+
+(* ================================================================= the property, assembled *)
+Section Main.
+  Variable H : bytes -> bytes.
+  Variable sign_vkey : bytes -> bytes -> vkw.
+  Variable sign_boot : bool -> bytes -> bytes -> bw.
+
+  Notation decode_fixed := (decode_fixed H).
+  Notation run_ops := (run_ops H sign_vkey sign_boot).
+
+  (* body and auxiliary data: input slices, re-emitted verbatim after any add-signature history *)
+  Theorem fixed_body_aux_preserved bs tx rest ops :
+    decode_fixed bs = Ok (tx, rest) -> sig_ops ops ->
+    exists hd Wb V cl,
+      bs = hd ++ ft_body tx ++ Wb ++ V ++ enc_aux (ft_aux tx) ++ cl ++ rest /\
+      item_wf (ft_body tx) = true /\
+      match ft_aux tx with Some a => item_wf a = true | None => True end /\
+      ((V = [] /\ ft_valid tx = true) \/ V = enc_valid (ft_valid tx)) /\
+      (cl = [] \/ cl = [255]) /\
+      ft_body (run_ops ops tx) = ft_body tx /\
+      ft_aux (run_ops ops tx) = ft_aux tx /\
+      encode_fixed (run_ops ops tx) =
+        [132] ++ ft_body tx ++ encode_wits (ft_wits (run_ops ops tx)) ++ enc_valid (ft_valid tx) ++ enc_aux (ft_aux tx).
+  Proof.
+    intros E Hs. destruct (decode_fixed_slices H _ _ _ E) as [hd [Wb [V [cl [ln [w [E1 [_ [Hb [_ [_ [_ [_ [HV [Ha Hcl]]]]]]]]]]]]]]].
+    destruct (run_ops_sig_frame H sign_vkey sign_boot ops Hs tx) as [A [_ [C D]]].
+    exists hd, Wb, V, cl. repeat split; try assumption.
+    unfold encode_fixed. rewrite A, C, D. reflexivity.
+  Qed.
+
+  (* every witness-set field no operation touched: the entry written back is byte-identical to the input
+     slice of that field (and absent fields stay absent) *)
+  Theorem fixed_untouched_verbatim bs tx rest ops k :
+    decode_fixed bs = Ok (tx, rest) -> k <= 7 ->
+    (forall o, In o ops -> touches o k = false) ->
+    exists hd Wrest, bs = hd ++ ft_body tx ++ Wrest /\
+      match lookup k (w_fields (ft_wits tx)) with
+      | Some f =>
+        exists raw pre kb post,
+          lookup k (entries (ft_wits (run_ops ops tx))) = Some raw /\
+          f_raw f = Some raw /\ raw <> [] /\
+          Wrest = pre ++ kb ++ raw ++ post /\
+          rd_uint (kb ++ raw ++ post) = Ok (k, raw ++ post) /\
+          dec_field k (raw ++ post) = Ok (f_parsed f, post)
+      | None => lookup k (entries (ft_wits (run_ops ops tx))) = None
+      end.
+  Proof.
+    intros E Hk Ht. destruct (decode_fixed_slices H _ _ _ E) as [hd [Wb [V [cl [ln [w [E1 [_ [_ [_ [_ [_ [Hsl _]]]]]]]]]]]]].
+    exists hd, (Wb ++ V ++ enc_aux (ft_aux tx) ++ cl ++ rest). split; [exact E1|].
+    rewrite (entries_lookup _ _ Hk), (run_ops_untouched H sign_vkey sign_boot ops k Ht tx).
+    destruct (lookup k (w_fields (ft_wits tx))) as [f|] eqn:El; [|reflexivity].
+    destruct (Hsl _ _ El) as [raw [pre [kb [post [A [B [C [D F]]]]]]]].
+    exists raw, pre, kb, post. unfold written. rewrite A. repeat split; assumption.
+  Qed.
+
+  (* the reported hash is Blake2b-256 of the body bytes - after ANY operation list (set_body as repaired),
+     and of the ORIGINAL body slice after any add-signature history *)
+  Theorem fixed_hash bs tx rest ops :
+    decode_fixed bs = Ok (tx, rest) ->
+    ft_hash (run_ops ops tx) = H (ft_body (run_ops ops tx)) /\
+    (sig_ops ops -> ft_hash (run_ops ops tx) = H (ft_body tx)).
+  Proof.
+    intros E. destruct (decode_fixed_slices H _ _ _ E) as [hd [Wb [V [cl [ln [w [_ [_ [_ [Hh _]]]]]]]]]].
+    split; [apply run_ops_hash_inv, Hh|].
+    intros Hs. destruct (run_ops_sig_frame H sign_vkey sign_boot ops Hs tx) as [_ [B _]]. rewrite B. exact Hh.
+  Qed.
+
+  (* the signing operations sign exactly that hash *)
+  Theorem fixed_sign_uses_hash tx k :
+    hash_inv H tx ->
+    ft_wits (step H sign_vkey sign_boot tx (OSignVkey k)) = add_vkey (sign_vkey k (H (ft_body tx))) (ft_wits tx) /\
+    ft_wits (step H sign_vkey sign_boot tx (OSignIcarus k)) = add_boot (sign_boot false k (H (ft_body tx))) (ft_wits tx) /\
+    ft_wits (step H sign_vkey sign_boot tx (OSignDaedalus k)) = add_boot (sign_boot true k (H (ft_body tx))) (ft_wits tx).
+  Proof. unfold hash_inv. intros <-. repeat split. Qed.
+
+  (* FixedTransactionBody *)
+  Theorem fixed_body_bytes bs raw h rest : decode_fixed_body H bs = Ok ((raw, h), rest) ->
+    bs = raw ++ rest /\ item_wf raw = true /\ h = H raw.
+  Proof.
+    unfold decode_fixed_body. intros E. apply bind_ok in E as [[raw' r] [E1 E]]. injection E as <- <- <-.
+    apply raw_item_self in E1 as [-> Hwf]. repeat split. exact Hwf.
+  Qed.
+
+  (* the other constructors keep their byte arguments whole *)
+  Theorem fixed_new_bytes rb rw v ra tx : fixed_new H rb rw v ra = Ok tx ->
+    ft_body tx = rb /\ ft_aux tx = ra /\ ft_valid tx = v /\ ft_hash tx = H rb.
+  Proof.
+    unfold fixed_new. intros E. apply bind_ok in E as [[bit r0] [_ E]]. apply bind_ok in E as [[w r1] [_ E]].
+    apply bind_ok in E as [u [_ E]]. apply mk_fixed_ok in E as [A [B [_ [C D]]]]. repeat split; assumption.
+  Qed.
+End Main.
+
+(* ================================================================= the defects the repairs removed *)
+Definition Hid (b : bytes) : bytes := b.
+Definition no_vk (_ _ : bytes) : vkw := ([], []).
+Definition no_bw (_ : bool) (_ _ : bytes) : bw := ([], [], [], []).
+
+(* 84 | {0:[],1:[],2:0} | {1: []} | true | null : an empty native-script list *)
+Definition witness_empty_native : bytes := [132; 163; 0; 128; 1; 128; 2; 0; 161; 1; 128; 245; 246].
+Definition witness_empty_plutus : bytes := [132; 163; 0; 128; 1; 128; 2; 0; 161; 3; 128; 245; 246].
+
+(* the serializer as it was before /repo 7a5b266 wrote map(0) followed by an entry: not a data item;
+   the repaired one re-emits the input witness set *)
+Theorem old_map_length_refuted :
+  exists tx, decode_fixed Hid witness_empty_native = Ok (tx, []) /\
+    item_wf (encode_wits_old (ft_wits tx)) = false /\
+    encode_wits_old (ft_wits tx) = [160; 1; 128] /\
+    item_wf (encode_wits (ft_wits tx)) = true /\
+    encode_fixed tx = witness_empty_native.
+Proof. eexists. split; [vm_compute; reflexivity|]. repeat split; vm_compute; reflexivity. Qed.
+
+(* ... and dropped an empty Plutus-script array although no operation touched it *)
+Theorem old_drops_empty_scripts_refuted :
+  exists tx, decode_fixed Hid witness_empty_plutus = Ok (tx, []) /\
+    lookup 3 (entries_by old_written (ft_wits tx)) = None /\
+    lookup 3 (entries (ft_wits tx)) = Some [128] /\
+    encode_fixed tx = witness_empty_plutus.
+Proof. eexists. split; [vm_compute; reflexivity|]. repeat split; vm_compute; reflexivity. Qed.
+
+(* set_body as it was before /repo be1619f left the hash of the previous body in place *)
+Theorem old_set_body_hash_refuted :
+  exists tx b, hash_inv Hid tx /\
+    ~ hash_inv Hid (fold_left (step_old Hid no_vk no_bw) [OSetBody b] tx) /\
+    hash_inv Hid (run_ops Hid no_vk no_bw [OSetBody b] tx).
+Proof.
+  destruct (decode_fixed Hid witness_empty_native) as [[tx r]| | |] eqn:E; try (vm_compute in E; discriminate).
+  exists tx, [163; 0; 128; 1; 128; 2; 1].
+  vm_compute in E. injection E as <- _. split; [reflexivity|]. split; [|reflexivity].
+  unfold hash_inv. vm_compute. discriminate.
+Qed.
+
+(* ================================================================= non-vacuity *)
+(* a non-canonical transaction: indefinite outer array, body with a non-minimal key head, witness set as an
+   indefinite map with keys out of order, an untagged chunked-vkey witness set, an empty redeemer map,
+   a one-element tagged datum list with an indefinite constructor; is_valid present; metadata map as aux *)
+Definition sample_vk : bytes := repeat 7 32.
+Definition sample_sg : bytes := repeat 9 64.
+Definition sample_tx : bytes :=
+  [159] ++ [163; 24; 0; 128; 1; 128; 2; 0] ++
+  ([191; 5; 160; 4; 217; 1; 2; 129; 216; 121; 159; 255; 0; 129; 130; 95; 88; 32] ++ sample_vk ++ [255; 88; 64] ++ sample_sg ++ [255]) ++
+  [244] ++ [161; 1; 2] ++ [255].
+
+Example sample_tx_accepted :
+  exists tx, decode_fixed Hid sample_tx = Ok (tx, []) /\
+    ft_valid tx = false /\ ft_aux tx = Some [161; 1; 2] /\ ft_body tx = [163; 24; 0; 128; 1; 128; 2; 0] /\
+    map fst (w_fields (ft_wits tx)) = [5; 4; 0] /\
+    wits_wf (ft_wits (run_ops Hid no_vk no_bw [OAddBoot (sample_vk, sample_sg, [1; 2], [160])] tx)).
+Proof.
+  eexists. split; [vm_compute; reflexivity|]. repeat split.
+  intros k v. vm_compute. 
+  destruct k as [|p]; [intros E; injection E as <-; reflexivity|].
+  repeat (destruct p as [p|p|]; try discriminate; try (intros E; injection E as <-; reflexivity)).
+Qed.
+
+Example sig_ops_example : sig_ops [OAddVkey (sample_vk, sample_sg); OSignVkey [1]; OSignIcarus [2]; OSignDaedalus [3]; OAddBoot (sample_vk, sample_sg, [], [])].
+Proof. intros o Hin. cbn [In] in Hin. repeat (destruct Hin as [<-|Hin]; [reflexivity|]). contradiction. Qed.
